@@ -339,7 +339,17 @@ func splitTop(s string) []string {
 
 var valueIface = reflect.TypeOf((*value.Value)(nil)).Elem()
 
+// platformInts: the Go types built for `l` and `L` are int and uint (eight bytes on the wire, as the encoder has it)
+// instead of int64 and uint64
+var platformInts bool
+
 func goTypeOf(t *sigT) reflect.Type {
+	if platformInts && t.kind == 'l' {
+		return reflect.TypeOf(int(0))
+	}
+	if platformInts && t.kind == 'L' {
+		return reflect.TypeOf(uint(0))
+	}
 	switch t.kind {
 	case '[':
 		return reflect.SliceOf(goTypeOf(t.elems[0]))
